@@ -9,14 +9,7 @@ Open Scope N_scope.
 (* ------------------------------------------------------------------ *)
 (* kinds are preserved by every per-consumer function of the model *)
 
-Lemma rtmp_visit_kind cache key c : c_kind (fst (rtmp_visit cache key c)) = c_kind c.
-Proof.
-  unfold rtmp_visit. destruct (c_fresh c); cbn [fst snd].
-  - match goal with |- context [if ?b then _ else _] => destruct b end; reflexivity.
-  - destruct (c_wait c && key); reflexivity.
-Qed.
-
-Lemma fin_kind cache key pend x c : c_kind (fin cache key pend x c) = c_kind c.
+Lemma fin_kind cache key hdr lc pend x c : c_kind (fin cache key hdr lc pend x c) = c_kind c.
 Proof.
   unfold fin. destruct (is_rtmp c); [|reflexivity].
   destruct (admitted c); [reflexivity|apply rtmp_visit_kind].
@@ -32,13 +25,13 @@ Proof.
   destruct (c_fresh c); reflexivity.
 Qed.
 
-Lemma flv_step_kind cache key lt c : c_kind (flv_step cache key lt c) = c_kind c.
+Lemma flv_step_kind cache key hdr lt c : c_kind (flv_step cache key hdr lt c) = c_kind c.
 Proof.
   unfold flv_step. destruct (negb (ckind_eqb (c_kind c) KFlv)); [reflexivity|].
   destruct (c_fresh c); cbn.
   - match goal with |- context [if (if ?a then _ else _) then _ else _] => destruct a end;
-      cbn; try destruct (c_wait c); try destruct key; reflexivity.
-  - destruct (c_wait c); [destruct key|]; reflexivity.
+      cbn; try destruct (c_wait c); try destruct key; try destruct hdr; reflexivity.
+  - destruct (c_wait c); [destruct key; [|destruct hdr]|]; reflexivity.
 Qed.
 
 Lemma ts_step_kind cache pat b lt c : c_kind (ts_step cache pat b lt c) = c_kind c.
@@ -51,13 +44,13 @@ Proof.
 Qed.
 
 (* ... and none of the RTMP / FLV / push / TS functions touches an RTSP session *)
-Lemma fin_rtsp cache key pend x c : c_kind c = KRtsp -> fin cache key pend x c = c.
+Lemma fin_rtsp cache key hdr lc pend x c : c_kind c = KRtsp -> fin cache key hdr lc pend x c = c.
 Proof. intro H. unfold fin, is_rtmp. now rewrite H. Qed.
 Lemma write1_rtsp l c : c_kind c = KRtsp -> (if ckind_eqb (c_kind c) KRtmp && admitted c then c_append c l else c) = c.
 Proof. intro H. now rewrite H. Qed.
 Lemma push_step_rtsp cache lw c : c_kind c = KRtsp -> push_step cache lw c = c.
 Proof. intro H. unfold push_step. now rewrite H. Qed.
-Lemma flv_step_rtsp cache key lt c : c_kind c = KRtsp -> flv_step cache key lt c = c.
+Lemma flv_step_rtsp cache key hdr lt c : c_kind c = KRtsp -> flv_step cache key hdr lt c = c.
 Proof. intro H. unfold flv_step. now rewrite H. Qed.
 Lemma ts_step_rtsp cache pat b lt c : c_kind c = KRtsp -> ts_step cache pat b lt c = c.
 Proof. intro H. unfold ts_step. now rewrite H. Qed.
@@ -71,10 +64,10 @@ Lemma publish_subs cf s m : Nat.eqb (length (rm_payload m)) 0 = false ->
     (forall c, c_id (F c) = c_id c) /\ (forall c, c_kind (F c) = c_kind c) /\ (forall c, c_kind c = KRtsp -> F c = c).
 Proof.
   intro Hne. unfold publish. rewrite Hne. rewrite rtmp_loop_spec.
-  set (cache := g_rtmp_cache s). set (key := is_video_key_nalu m).
-  set (x := if anytrig cache key (g_subs s) then g_merge s else []).
-  set (F1 := fin cache key [] x).
-  set (P := push_step cache (lcw m (g_next s))). set (V := flv_step (g_flv_cache s) key (LT (g_next s))).
+  set (cache := g_rtmp_cache s). set (key := is_video_key_nalu m). set (hdr := is_hdr_msg m). set (lc := LC (g_next s)).
+  set (x := if anytrig cache key hdr lc (g_subs s) then g_merge s else []).
+  set (F1 := fin cache key hdr lc [] x).
+  set (P := push_step cache (lcw m (g_next s))). set (V := flv_step (g_flv_cache s) key hdr (LT (g_next s))).
   assert (HW : forall l, exists F, (forall subs, map V (map P (write_rtmp_admitted l (map F1 subs))) = map F subs) /\
             (forall c, c_id (F c) = c_id c) /\ (forall c, c_kind (F c) = c_kind c) /\ (forall c, c_kind c = KRtsp -> F c = c)).
   { intro l.
@@ -82,14 +75,14 @@ Proof.
     split; [intro subs; unfold write_rtmp_admitted; now rewrite !map_map|]. split; [|split].
     - intro c. unfold V, P, F1. now rewrite flv_step_id, push_step_id, write1_id, fin_id.
     - intro c. unfold V, P, F1. now rewrite flv_step_kind, push_step_kind, write1_kind, fin_kind.
-    - intros c Hk. unfold V, P, F1. rewrite (fin_rtsp _ _ _ _ c Hk), (write1_rtsp _ c Hk), (push_step_rtsp _ _ c Hk).
+    - intros c Hk. unfold V, P, F1. rewrite (fin_rtsp _ _ _ _ _ _ c Hk), (write1_rtsp _ c Hk), (push_step_rtsp _ _ c Hk).
       now apply flv_step_rtsp. }
   assert (H0 : exists F, (forall subs, map V (map P (map F1 subs)) = map F subs) /\
             (forall c, c_id (F c) = c_id c) /\ (forall c, c_kind (F c) = c_kind c) /\ (forall c, c_kind c = KRtsp -> F c = c)).
   { exists (fun c => V (P (F1 c))). split; [intro subs; now rewrite !map_map|]. split; [|split].
     - intro c. unfold V, P, F1. now rewrite flv_step_id, push_step_id, fin_id.
     - intro c. unfold V, P, F1. now rewrite flv_step_kind, push_step_kind, fin_kind.
-    - intros c Hk. unfold V, P, F1. rewrite (fin_rtsp _ _ _ _ c Hk), (push_step_rtsp _ _ c Hk). now apply flv_step_rtsp. }
+    - intros c Hk. unfold V, P, F1. rewrite (fin_rtsp _ _ _ _ _ _ c Hk), (push_step_rtsp _ _ c Hk). now apply flv_step_rtsp. }
   destruct (has_kind KRtmp _); [destruct (cf_merge cf =? 0); [|destruct (cf_merge cf <=? _)]|]; cbn [g_subs].
   - destruct (HW [LC (g_next s)]) as (F & E & A & B & C). exists F. rewrite E. auto.
   - match goal with |- context [write_rtmp_admitted ?l _] => destruct (HW l) as (F & E & A & B & C) end.
